@@ -10,18 +10,22 @@ CONSTANTS RelayClasses
 
 Algs == {"unset", "rsa-sha1", "rsa-sha256", "rsa-sha384", "rsa-sha512", "ecdsa-sha256"}
 KeyCfgs == {"encField", "encSetter", "signField", "signSetter"}
-AlgOK(x) == x.alg = "ecdsa-sha256" => x.keycfg \in {"encSetter", "signSetter"}
+\* keytype: an ECDSA key can only be supplied through a setter (the deprecated fields are RSA-only)
+KeyOK(x) == x.keytype = "ec" => x.keycfg \in {"encSetter", "signSetter"}
 
 Redirect == { x \in [binding : {"redirect"}, flow : {"authn", "authnPostBinding", "logoutReq"}, relay : RelayClasses, idpurl : {"noquery", "query"},
-                     signReq : BOOLEAN, alg : Algs, keycfg : KeyCfgs] : AlgOK(x) }
+                     signReq : BOOLEAN, alg : Algs, keycfg : KeyCfgs, keytype : {"rsa", "ec"}] : KeyOK(x) }
 Post == [binding : {"post"}, flow : {"authn", "authnFromDoc", "logoutReq", "logoutResp"}, relay : RelayClasses, idpurl : {"noquery", "query"},
-         signReq : BOOLEAN, alg : {"unset"}, keycfg : {"encField"}]
+         signReq : BOOLEAN, alg : {"unset"}, keycfg : {"encField"}, keytype : {"rsa"}]
 Inputs == Redirect \cup Post
 Cfgs == [x : {0}]
 
 \* the redirect URL carries a signature for the Redirect binding only; logout requests are always signed
 SignApplies(in) == in.binding = "redirect" /\ (in.flow = "logoutReq" \/ (in.flow = "authn" /\ in.signReq))
-ExpAlg(in) == IF in.alg = "unset" THEN "rsa-sha256" ELSE in.alg
+\* the configured algorithm is used when it fits the key; otherwise (unset, or an algorithm of the other key
+\* family, which the signing context refuses) the library default applies: SHA-256 with the key's algorithm
+AlgFits(in) == in.alg # "unset" /\ ((in.alg = "ecdsa-sha256") <=> (in.keytype = "ec"))
+ExpAlg(in) == IF AlgFits(in) THEN in.alg ELSE IF in.keytype = "ec" THEN "ecdsa-sha256" ELSE "rsa-sha256"
 ModelOut(cfg, in) == [built |-> TRUE, relay_present |-> in.relay # "empty", sig_present |-> SignApplies(in)]
 
 \* o (redirect): [built, endpoint_ok, params_ok, request_ok, relay_present, relay_ok, sig_present, sigalg, sig_ok, verified_by, order_ok]
